@@ -37,7 +37,13 @@ class GeneratorDriver:
         if st['kind'] == 'random':
             cls = CylindricalGenerator if (st['n'] + int(st['shadow'])) % 2 else RectangularGenerator
             args = dict(dr=100, dz=200) if cls is CylindricalGenerator else dict(dx=100, dy=150, dz=200)
-            self.gen = cls(energy=1e9, shadow=bool(st['shadow']), earth_model=self.earth, **args)
+            self.energy_calls = 0
+
+            def energy():
+                self.energy_calls += 1
+                return 1e9 + self.energy_calls          # a new energy for every throw
+
+            self.gen = cls(energy=energy, shadow=bool(st['shadow']), earth_model=self.earth, **args)
         else:
             self.events = [Event(Particle('nu_e', (i, 0, -10), (0, 0, 1), 1e8, interaction_type='cc')) for i in range(st['n'])]
             self.gen = ListGenerator(list(self.events), loop=bool(st['loop']))
@@ -59,6 +65,22 @@ class GeneratorDriver:
             if self.gen.count != last['count']:
                 raise Divergence('generator.count', last['count'], self.gen.count)
             p = list(ev)[0]
+            if self.energy_calls != last['count']:
+                raise Divergence('energies drawn from the source (one per throw)', last['count'], self.energy_calls)
+            if p.energy != 1e9 + last['count']:
+                raise Divergence('energy of the returned particle (the one drawn for its own throw)', 1e9 + last['count'], p.energy)
+            # weights are functions of the particle as it is now: change its energy and compare with a fresh particle
+            real_earth, self.gen.earth_model = self.gen.earth_model, pyrex.earth_model.PREM() if hasattr(pyrex, 'earth_model') else self.gen.earth_model
+            try:
+                w1 = self.gen.get_weights(p)
+                p.energy = p.energy * 100
+                w2 = self.gen.get_weights(p)
+                q = Particle(p.id, p.vertex, p.direction, p.energy, interaction_model=type(p.interaction), interaction_type=p.interaction.kind)
+                w3 = self.gen.get_weights(q)
+            finally:
+                self.gen.earth_model = real_earth
+            if not np.allclose(w2, w3, rtol=1e-9, atol=0):
+                raise Divergence('get_weights after changing the particle energy vs fresh particle', [float(x) for x in w3], [float(x) for x in w2])
             want_sw = 1.0 if last['shadow'] else (1.0 if last['survives'] else 0.0)
             if abs(p.survival_weight - want_sw) > 1e-12:
                 raise Divergence('survival_weight of the returned particle', want_sw, p.survival_weight)
